@@ -28,6 +28,12 @@ def run(tier):
                    "harness.writerprog", "replay_writer_case",
                    sample_fn=lambda rec: {"prog": rec["prog"], "cls": rec["cls"], "chans": rec["chans"]},
                    sample_every=2503)
+    # composition (TdmsSystem): writer sessions -> crash -> readers with / without the writer's index file, long
+    # simulated behaviours replayed on a scratch directory
+    from ..system import run_system
+    run_system(chk, 120 if tier == "quick" else 3000)
+    if tier == "thorough":
+        run_system(chk, 1500, cfg_over={"ObjChoices": "c_ObjChoicesStr"})
     chk.assumptions += ["concrete arrays / property values per class: harness/writerprog.py (boundary values first)",
                         "TDMS type of written properties observed through the independent structural parser",
                         "lists of Python bools may come back as Boolean or Int8 (bool is an int); list classes are not "
